@@ -17,9 +17,9 @@ def outcome(f):
     return ('ok', SX.raw(str(soup)), doc_shape(soup)), soup
 
 
-def forms_of(src, holes_lf_free):
+def forms_of(src, holes_lf_free, full=True):
     n = len(src)
-    cuts = sorted(set([0, 1, n // 2, n - 1, n]))
+    cuts = sorted(set([0, 1, n // 2, n - 1, n])) if full else sorted(set([1, n // 2]))
     forms = []
     for i in cuts:
         if 0 <= i <= n:
@@ -33,9 +33,9 @@ def forms_of(src, holes_lf_free):
     return forms
 
 
-def compare_forms(src, lf_free):
+def compare_forms(src, lf_free, full=True):
     base, _ = outcome(lambda: TexSoup(src))
-    for name, mk in forms_of(src, lf_free):
+    for name, mk in forms_of(src, lf_free, full):
         got, _ = outcome(lambda: TexSoup(mk()))
         SX.check(got == base, 'C17:input-form-differs', lambda: {'source': src, 'form': name, 'as_str': repr(base)[:300], 'as_form': repr(got)[:300]})
     again, _ = outcome(lambda: TexSoup(src))
@@ -54,7 +54,7 @@ def c17_forms_free(n, lf_free=True):
 def c17_forms_doc(doc):
     d = K.instantiate(doc, SX)
     src = K.doc_src(d)
-    return compare_forms(src, False)
+    return compare_forms(src, False, False)
 
 
 def c17_size(pi, n):
